@@ -118,7 +118,8 @@ class Thread(threading.Thread):
         if self.is_alive():
             # Timed out
             return
-        if self._future_.exception():
+        if self._future_.exception() is not None:
+            # Not a truth test: an exception object may be falsy (e.g. it defines `__len__`).
             raise self._future_.exception()
 
     def done(self) -> bool:
@@ -138,6 +139,9 @@ class Thread(threading.Thread):
         super().join(timeout)
         if self.is_alive():
             raise TimeoutError
+        if self._future_.exception() is not None:
+            # `Future.result` uses a truth test and would return `None` for a falsy exception object.
+            raise self._future_.exception()
         return self._future_.result()
 
     def exception(self, timeout=None):
